@@ -1256,3 +1256,16 @@ package runtime
 //@   modifies everything()
 //@   exits any
 //@   assert_before_call setReg: c.pc == old(c.pc) + 1 && $reg == old(c.code[c.pc]).GetA() && $val == val && !old(c.code[c.pc]).GetF()
+
+// Clearing a cell register installs a brand new cell holding nil (closures that
+// captured the old cell keep it); clearing a value register stores nil.
+//@ func (*LuaCont).clearReg
+//@   prop C01
+//@   arith int
+//@   norte
+//@   nocover
+//@   requires c != nil
+//@   modifies all(c.cells), all(c.registers)
+//@   ensures reg.IsCell() ==> fresh(c.cells[reg.Idx()].ref) && *c.cells[reg.Idx()].ref == NilValue
+//@   ensures reg.IsCell() ==> forall(j, 0, len(c.cells), j != int(reg.Idx()) ==> c.cells[j] == old(c.cells[j]))
+//@   ensures !reg.IsCell() ==> c.registers[reg.Idx()] == NilValue
